@@ -619,7 +619,7 @@ def run(chk: Check) -> int:
     chk.log(f"implementation side: {len(cases)} cases, {tot['asks']} asks checked by the oracle "
             f"({tot['brute']} also by brute force), failures {len(chk.failures)}")
     # ------------------------------------------------------------------ correspondence (comparison inside Coq)
-    shard = max(1, min(8, (len(cases) + 31) // 32)) if quick else 4     # small shards: ~1 GB per coqc at most
+    shard = 4     # small shards: ~1 GB per coqc at most
     mism, legal, errors = chk.coq_cases("cases", I.PREAMBLE, "case", cases, "check", LEGAL_FN, shard=shard)
     mism, legal, errors = retry_killed(chk, shard, mism, legal, errors)
     for e in errors:
